@@ -195,7 +195,12 @@ func (g *Gen) structSort(t types.Type) string {
 	var fs []string
 	for i := 0; i < st.NumFields(); i++ {
 		f := st.Field(i)
-		fs = append(fs, fmt.Sprintf("(%s.%s %s)", id, sanitize(f.Name()), g.sortOf(f.Type())))
+		fname := sanitize(f.Name())
+		if f.Name() == "_" {
+			// blank fields (atomic.Uint64 has two) are never selected; they only need distinct accessor names
+			fname = fmt.Sprintf("_blank%d", i)
+		}
+		fs = append(fs, fmt.Sprintf("(%s.%s %s)", id, fname, g.sortOf(f.Type())))
 	}
 	line := fmt.Sprintf("(declare-datatypes ((%s 0)) (((mk.%s %s))))", id, id, strings.Join(fs, " "))
 	g.emit("%s", line)
